@@ -32,6 +32,24 @@ func jsonSnap(v any) string {
 	return string(b)
 }
 
+type c12struct struct {
+	A int            `json:"a"`
+	B []string       `json:"b"`
+	N map[string]any `json:"n,omitempty"`
+	D *float64       `json:"d,omitempty"`
+}
+
+// typed instances are rebuilt for every case; pointers are printed by content through the JSON snapshot
+var c12typed = []func() any{
+	func() any { return c12struct{A: 3, B: []string{"aa", "b"}, N: map[string]any{"x": []any{1.0, "y"}}} },
+	func() any { f := 2.5; return &c12struct{A: 1, B: nil, D: &f} },
+	func() any { return map[string]any{"a": []any{map[string]any{"a": 1.0}}, "b": "s"} },
+	func() any { return []any{map[string]any{"a": 1.0}, []any{"x"}} },
+	func() any { return map[string]string{"a": "x"} },
+	func() any { return []string{"aa", "b"} },
+	func() any { return []int{1, 2, 2} },
+}
+
 var c12extraAtoms = []string{
 	`{"properties":{"a":{"default":1}}}`,
 	`{"properties":{"a":{"type":"integer","default":1},"b":{"default":{"x":[1]}}},"required":["a"]}`,
@@ -319,6 +337,38 @@ func c12worker(c *hx.Ctx) int {
 		for _, b := range gen.Atoms() {
 			if s := gen.Merge(a, b); s != "" && mine() {
 				doSchema(s)
+			}
+		}
+	}
+	// typed Go instances (structs, pointers, typed maps and slices): converted to a dynamic value by
+	// the library, which must leave the caller's value alone
+	if c.Worker == 0 {
+		for _, a := range append(append([]string(nil), gen.BaseAtoms...), c12extraAtoms...) {
+			for _, mk := range c12typed {
+				v := mk()
+				before := jsonSnap(v) + deepSnap(v)
+				for mode := 0; mode < 2; mode++ {
+					sch, err := parseSpecSchema(a)
+					if err != nil {
+						continue
+					}
+					func() {
+						defer func() {
+							if recover() != nil {
+								resetPools()
+							}
+						}()
+						if mode == 0 {
+							_ = validate.AgainstSchema(sch, v, strfmt.Default)
+						} else {
+							validate.NewSchemaValidator(sch, nil, "", strfmt.Default).Validate(v)
+						}
+					}()
+					rep.Inc("calls", 1)
+				}
+				if after := jsonSnap(v) + deepSnap(v); after != before {
+					rep.AddViolation(hx.Violation{Signature: fmt.Sprintf("typed instance %T modified by schema %s", v, a), What: fmt.Sprintf("schema %s: the typed instance was modified: before %s, after %s", a, before, after), Replay: map[string]any{"schema": a}})
+				}
 			}
 		}
 	}
